@@ -452,8 +452,18 @@ def inline_new_helpers(tree, module_name, functions_of_class):
 
 def signatures(trees):
     """function name -> the one parameter-name tuple (without self/cls) shared by every definition of
-    that name in the package, or None when definitions disagree."""
+    that name in the package, or None when definitions disagree; plus ("Cls", "method") -> tuple."""
     sigs = {}
+    for tree in trees:
+        for c in ast.walk(tree):
+            if isinstance(c, ast.ClassDef):
+                for n in c.body:
+                    if isinstance(n, ast.FunctionDef) and not (n.args.vararg or n.args.kwarg or n.args.kwonlyargs):
+                        names = [a.arg for a in n.args.args]
+                        if names and names[0] in ("self", "cls"):
+                            names = names[1:]
+                        key = (c.name, n.name)
+                        sigs[key] = tuple(names) if key not in sigs else None
     for tree in trees:
         for n in ast.walk(tree):
             if isinstance(n, ast.FunctionDef):
@@ -482,6 +492,9 @@ def positional_calls(tree, sigs):
             continue
         name = n.func.attr if isinstance(n.func, ast.Attribute) else (n.func.id if isinstance(n.func, ast.Name) else None)
         sig = sigs.get(name)
+        if not sig and isinstance(n.func, ast.Attribute) and isinstance(n.func.value, ast.Call) \
+                and isinstance(n.func.value.func, ast.Name):
+            sig = sigs.get((n.func.value.func.id, name))      # Cls().method(kw=..)
         if not sig:
             continue
         kw = {k.arg: k.value for k in n.keywords}
